@@ -397,7 +397,10 @@ def run_scenario(scen, keep_events=False):
             else:
                 # no -l: a labels file must not appear out of nowhere (nothing to check)
                 pass
-            if paths['hex'] and opts['hex'] not in HEX_OBS:
+            if paths['hex'] and opts['hex'] in HEX_BAD:
+                # the tool accepted an offset spelling that Python's int(x, 0) rejects: outside the quantifier (which reading is meant?)
+                res.observe('unparsable-hex-offset-accepted:%s' % opts['hex'])
+            elif paths['hex'] and opts['hex'] not in HEX_OBS:
                 txt = fs.files.get(paths['hex'])
                 off = int(opts['hex'], 0)
                 try:
